@@ -1,4 +1,5 @@
 """C09 Emitted escape sequences are well-formed, self-contained and strippable."""
+import enum
 import itertools
 from decimal import Decimal
 from fractions import Fraction
@@ -48,7 +49,16 @@ INVALID = [-1, 256, 1000, -256, (0, 0, 6), (-1, 0, 0), (6, 6, 6), (1, 2), (1, 2,
            # ('g 5', 'g5 ', 'g+5' are tolerated by int() and accepted as g5: spelling leniency, not asserted either way)
            "gg5", "ggg12", "gg0", "gg23", "G5", " g5", "g5.0", "REDD", "RED ", "g2g",
            # numerically equal to valid codes, but not ints (must not be let through by a cache keyed on ==)
-           1.0, 0.0, 7.0, 200.0, 255.0, Fraction(3), Decimal(5), (1.0, 2, 3), (0, 0, 5.0)]
+           1.0, 0.0, 7.0, 200.0, 255.0, Fraction(3), Decimal(5), (1.0, 2, 3), (0, 0, 5.0),
+           # what a configuration FILE uses for 'the terminal's default' is not a colour value of this interface
+           "-", " -", "--", "default", "none", "None"]
+
+
+class VfCode(int):
+    """a colour code of the application's own type"""
+
+
+VfShade = enum.IntEnum("VfShade", {"HOT": 196, "COLD": 21, "BLACK": 0, "LAST": 255})
 
 
 class VfText(CHText):
@@ -68,8 +78,11 @@ def rand_value(rng):
         return None
     if r < 0.4:
         return rng.choice(sgr.NAMES)
-    if r < 0.6:
+    if r < 0.52:
         return rng.randrange(256)
+    if r < 0.6:
+        # a code given as an int of another type (an enumeration of the application, a subclass of int)
+        return rng.choice([VfCode(rng.randrange(256)), rng.choice(list(VfShade))])
     if r < 0.8:
         t = (rng.randrange(6), rng.randrange(6), rng.randrange(6))
         return t   # (a list [r, g, b] raises TypeError 'unhashable': only tuples are documented)
